@@ -21,7 +21,8 @@ def main():
     pid = args[0]
     src = args[1] if len(args) > 1 else "/tmp/mut_out/" + pid
     name = args[2] if len(args) > 2 else pid
-    skip_baseline = "--skip-baseline" in sys.argv
+    skip_baseline = "--skip-baseline" in sys.argv or "--check-only" in sys.argv
+    check_only = "--check-only" in sys.argv
     dst = os.path.join(VERIF, "seeded", name)
     if os.path.abspath(src) != os.path.abspath(dst):
         os.makedirs(dst, exist_ok=True)
@@ -40,6 +41,11 @@ def main():
         shutil.rmtree(w, ignore_errors=True)
     sh("git -C /repo worktree prune")
     ver = {"at": time.strftime("%Y-%m-%d %H:%M:%S"), "repo_head": sh("git -C /repo rev-parse --short HEAD").stdout.strip()}
+    if check_only:      # regression run: keep what was confirmed before (baseline, demonstration), redo only our check
+        old = meta.get("verified", {})
+        for k in ("baseline_tail", "baseline_passes", "demo_clean_exit", "demo_mutated_exit", "demo_mutated_tail"):
+            if k in old:
+                ver[k] = old[k]
     try:
         p = sh("git -C /repo worktree add --detach %s HEAD && git -C /repo worktree add --detach %s HEAD" % (wt_clean, wt_mut))
         p = sh("git -C %s apply %s" % (wt_mut, os.path.join(dst, "patch.diff")))
@@ -53,7 +59,7 @@ def main():
             ver["baseline_tail"] = out[-600:]
             ver["baseline_passes"] = ("100% tests passed" in out) and ("OK (" in out.split("CppUTestExt tests")[-1])
         demo = os.path.join(dst, "run_demo.sh")
-        if os.path.exists(demo):
+        if os.path.exists(demo) and not check_only:
             p1 = sh("bash %s %s" % (demo, wt_clean), timeout=1800, cwd=dst)
             p2 = sh("bash %s %s" % (demo, wt_mut), timeout=1800, cwd=dst)
             ver["demo_clean_exit"] = p1.returncode
